@@ -33,7 +33,7 @@ EXPLANATION = (
 )
 
 MANIFEST = {
-    "technique": "static analysis: partial evaluation of every mode dispatcher under mode == M for the 8 modes (exhaustiveness and convention agreement independent of dispatch shape), store-target locality incl. views and whole-buffer prefill, finite-grid agreement of the two dtype tables, path-term agreement of unlink vs save, freshness of returned buffers, representation consistency of Image (who writes _pil / _array); must-pass-through of the write-back in update_image; per-mode classification of the allocated buffer by the library's own dtype->mode function; array-rank reasoning per mode; normal forms of whole-array tests (not any(not P) = all(P)); per-mode evaluation of the condition under which the masked default is cleared; data handed to the array writers of Image.save is the image's own array",
+    "technique": "static analysis: partial evaluation of every mode dispatcher under mode == M for the 8 modes (exhaustiveness and convention agreement independent of dispatch shape), store-target locality incl. views and whole-buffer prefill, finite-grid agreement of the two dtype tables, path-term agreement of unlink vs save, freshness of returned buffers, representation consistency of Image (who writes _pil / _array); must-pass-through of the write-back in update_image; per-mode classification of the allocated buffer by the library's own dtype->mode function; array-rank reasoning per mode; normal forms of whole-array tests (not any(not P) = all(P)); per-mode evaluation of the condition under which the masked default is cleared; data handed to the array writers of Image.save is the image's own array; accessor identity: asarray() returns the stored array object itself",
     "text": "Decides exhaustiveness, agreement of the undefined-value conventions across the four mask operations for all eight modes, locality of buffer writes, agreement of the two dtype tables, and the persistence rules of write_image/read_image. Codec round trips are not decided.",
     "note": "Trusted: numpy putmask/maximum/isnan/fill semantics; PIL/astropy/numpy file I/O. Not decided: read-back equality per codec.",
 }
